@@ -268,18 +268,23 @@ def normalize_url(
             url = normalize_youtube_url(url)
 
     # Parsing
+    # NOTE: reading the port can also raise (e.g. "a.com:99999")
     try:
         splitted = urlsplit(url)
+        port = splitted.port
     except ValueError:
         return original_url_arg
 
     scheme, netloc, path, query, fragment = splitted
-    user, password, hostname, port = (
+    user, password, hostname = (
         splitted.username,
         splitted.password,
         splitted.hostname,
-        splitted.port,
     )
+
+    # NOTE: without a host there is nothing we know how to normalize
+    if not hostname:
+        return original_url_arg
 
     # Fixing common mistakes
     if fix_common_mistakes and query:
